@@ -15,8 +15,7 @@ OFFSET_BUILDERS = [
     ("codec.base.MultiPerDocumentReader.__init__", "readers", "self._doc_offsets", "doc_count_all"),
     ("writing.SegmentWriter._setup_doc_offsets", "self.segments", "self._doc_offsets", "doc_count_all"),
 ]
-LOCATORS = ["reading.MultiReader._document_segment", "codec.base.MultiPerDocumentReader._document_reader",
-            "columns.MultiColumnReader._document_reader", "writing.SegmentWriter._document_segment"]
+LOCATOR_CLASSES = ["reading.MultiReader", "codec.base.MultiPerDocumentReader", "columns.MultiColumnReader", "writing.SegmentWriter"]
 
 
 @rule("C06", "R1", "K11", "merging renumbers documents consistently for per-document data and postings",
@@ -228,13 +227,39 @@ def c06_r3(ctx):
                 norm.canon(apps[0].value.args[0]) == norm.canon(incs[0].target) and \
                 norm.canon(incs[0].value) == "%s.%s()" % (v, counter)
             detail = " ; ".join(body)
+        if not ok and not loops:
+            # accepted equivalent idiom: prefix sums over the list of ALL counts
+            #   counts = [x.<counter>() for x in <coll>]        (no filter)
+            #   <offs> = [sum(counts[:i]) for i in range(len(counts))]     or   list(accumulate(...)) shifted by one
+            for st in ast.walk(f.node):
+                if isinstance(st, ast.Assign) and norm.canon(st.targets[0]) == offs and isinstance(st.value, ast.ListComp):
+                    lc = st.value
+                    g0 = lc.generators[0]
+                    if len(lc.generators) == 1 and not g0.ifs and isinstance(g0.target, ast.Name) and isinstance(lc.elt, ast.Call) \
+                            and norm.call_name(lc.elt) == "sum" and len(lc.elt.args) == 1 and isinstance(lc.elt.args[0], ast.Subscript):
+                        sub = lc.elt.args[0]
+                        cnts = norm.canon(sub.value)
+                        cdef = norm.definitions(f.node).get(cnts)
+                        ok = norm.canon(sub.slice) == ":%s" % g0.target.id and norm.canon(g0.iter) in ("range(len(%s))" % cnts, "xrange(len(%s))" % cnts) \
+                            and isinstance(cdef, ast.ListComp) and len(cdef.generators) == 1 and not cdef.generators[0].ifs \
+                            and norm.canon(cdef.generators[0].iter) == coll and isinstance(cdef.generators[0].target, ast.Name) \
+                            and norm.canon(cdef.elt) == "%s.%s()" % (cdef.generators[0].target.id, counter)
+                        detail = norm.stmt_text(st)
         ctx.ob(f, ok, "for each element: offsets.append(base); base += element.%s()  (unconditionally)" % counter, detail=detail)
-    for fn in LOCATORS:
-        f = prog.func(fn)
-        ctx.saw(f)
-        rets = [norm.canon(r.value) for r in returns_of(f) if r.value is not None]
-        ok = any("bisect_right(" in r and "- 1)" in r for r in rets)
-        ctx.ob(f, ok, "locates a document with bisect_right(offsets, docnum) - 1", detail=str(rets))
+    for cn in LOCATOR_CLASSES:
+        cls = prog.cls(cn)
+        found = []
+        for f in cls.methods.values():
+            for c in norm.calls_in(f.node):
+                if norm.call_name(c) in ("bisect_right", "bisect_left", "bisect"):
+                    # the call must be the left operand of `... - 1`
+                    par = [n for n in ast.walk(f.node) if isinstance(n, ast.BinOp) and isinstance(n.op, ast.Sub) and n.left is c
+                           and isinstance(n.right, ast.Constant) and n.right.value == 1]
+                    offs_arg = norm.canon(c.args[0], norm.aliases(f.node)) if c.args else ""
+                    found.append((f, norm.call_name(c) == "bisect_right" and bool(par) and "offset" in offs_arg, norm.canon(c)))
+                    ctx.saw(f)
+        ctx.ob(cls, bool(found) and all(ok_ for _, ok_, _ in found), "locates a document with bisect_right(offsets, docnum) - 1",
+               detail=str([(f_.name, t_) for f_, _, t_ in found]), loc=cls.loc)
     mcr = prog.method("columns.MultiColumnReader", "__init__", inherited=False)
     G = pm.Alpha(mcr)
     sts = pm.stmts_of(mcr.node)
